@@ -16,6 +16,9 @@ def run(cx):
     r2b(cx, h)
     check_one_reply_paths(cx, "C01.R3")
     r4(cx)
+    cx.rule("C01.R5", "per-call reply state: a reply is flagged `continues` (i.e. is not the final one) only through the gate of reply_struct — set_continues stores its argument, wants_more() is exact, the mismatch error writes nothing (shared with C05.R1)")
+    from .C05 import r1 as reply_gate
+    reply_gate(cx, rule="C01.R5")
 
 def r2(cx, h):
     body, cfg, du = h.body, h.cfg, h.du
